@@ -445,9 +445,17 @@ Section Progress.
   Lemma link_enabled s t l e w q r : stk s t = (l, PA_link e w q) :: r -> enabled s t.
   Proof. intros H. exists false. unfold gstep. rewrite H. eexists. reflexivity. Qed.
 
-  (* every thread inside a call or a drain either can step, or waits for an enqueuer that can *)
-  Theorem no_stuck_thread s t :
-    reach F s -> valid_tid t -> stk s t <> [] -> enabled s t \/ exists u, u <> t /\ enabled s u.
+  (* t is a drainer at _dispatch_queue_get_head / _dispatch_queue_pop_head of lane l waiting for the link of an entry that
+     u has exchanged into l's tail and is about to publish (u's top frame is that push, at PA_link) *)
+  Definition waits_for_link (s : gst) (t u : Z) : Prop :=
+    exists l o e w q r r' x,
+      (stk s t = (l, PW_head o) :: r \/ stk s t = (l, PW_pop o) :: r) /\
+      stk s u = (l, PA_link e w q) :: r' /\ In x (lst s l) /\ e_ent x = e /\ e_linked x = false.
+
+  (* every thread inside a call or a drain either can step, or waits for the link of a NAMED enqueuer u, and u can step
+     (its next step publishes that link) *)
+  Theorem no_stuck_thread_named s t :
+    reach F s -> valid_tid t -> stk s t <> [] -> enabled s t \/ exists u, u <> t /\ waits_for_link s t u /\ enabled s u.
   Proof.
     intros R Vt NI. destruct (Inv2_reachable s R) as (I & H1 & H2). pose proof I as [L T].
     destruct (stk s t) as [|[l p] r] eqn:E; [contradiction|].
@@ -473,13 +481,15 @@ Section Progress.
       destruct (lst s l) as [|e0 l0] eqn:El; [contradiction|].
       destruct (e_linked e0) eqn:Elk; [left; exists false; eexists; reflexivity|].
       right. destruct (H2 l e0) as (u & w & q & r0 & Eu); [rewrite El; left; reflexivity | exact Elk |].
-      exists u. split; [intros ->; congruence | apply (link_enabled s u _ _ _ _ _ Eu)].
+      exists u. split; [intros ->; congruence|]. split; [|apply (link_enabled s u _ _ _ _ _ Eu)].
+      exists l, owned, (e_ent e0), w, q, r, r0, e0. split; [left; exact E|]. split; [exact Eu|]. split; [rewrite El; left; reflexivity | auto].
     - (* PW_pop *)
       assert (Ll : lst s l <> []) by (apply Fed; reflexivity).
       destruct (lst s l) as [|e0 [|e2 l0]] eqn:El; [contradiction | left; exists false; eexists; reflexivity |].
       destruct (e_linked e2) eqn:Elk; [left; exists false; eexists; reflexivity|].
       right. destruct (H2 l e2) as (u & w & q & r0 & Eu); [rewrite El; right; left; reflexivity | exact Elk |].
-      exists u. split; [intros ->; congruence | apply (link_enabled s u _ _ _ _ _ Eu)].
+      exists u. split; [intros ->; congruence|]. split; [|apply (link_enabled s u _ _ _ _ _ Eu)].
+      exists l, owned, (e_ent e2), w, q, r, r0, e2. split; [right; exact E|]. split; [exact Eu|]. split; [rewrite El; right; left; reflexivity | auto].
     - left. exists false. eexists. reflexivity.
     - left. exists false. eexists. reflexivity.
     - (* PW_invoking is never the top frame *)
@@ -498,6 +508,10 @@ Section Progress.
       unfold w_finish, ENQUEUED. rewrite Genc. change OWN with (18014398509481984 + 2199023255552 + 2147483648 * 1).
       rewrite (finish_fields rl Gwf (g_hi F s l rl G) Ib Wq Enq (g_em F s l rl G)). eexists. reflexivity.
   Qed.
+
+  Corollary no_stuck_thread s t :
+    reach F s -> valid_tid t -> stk s t <> [] -> enabled s t \/ exists u, u <> t /\ enabled s u.
+  Proof. intros R V N. destruct (no_stuck_thread_named s t R V N) as [H|(u & Nu & _ & H)]; [left; exact H | right; eauto]. Qed.
 
   (* hence: a reachable state in which some thread is inside a call is never deadlocked *)
   Corollary no_deadlock s t : reach F s -> valid_tid t -> stk s t <> [] -> exists u, enabled s u.
